@@ -224,3 +224,6 @@ package coins
 
 //@ # ---------------------------------------------------------------- lock discipline (C25)
 //@ guarded Coins.list, Coins.dirty, Coins.symbolsList, Coins.symbolsInfoList by lock
+//@ # NOT declared: the fields of the per-coin record (Model.info is read without the record's lock by Reserve, isDirty is
+//@ # set under the READ lock by Mint/Burn, symbolInfo is read after Unlock by ChangeOwner): no crash follows from these
+//@ # (pointer set once, a flag, the writer's own read), the discipline is simply not the one the lock suggests
